@@ -422,3 +422,15 @@ func dbgBook(args []string) int {
 	return 0
 }
 func init() { register("dbg-book", dbgBook) }
+
+func dbgMinorMate(args []string) int {
+	rng := NewRng(7)
+	wk := NewWalker(rng)
+	t := time.Now()
+	for i := 0; i < 10; i++ {
+		fmt.Fprintln(realStdout, wk.minorPieceMate())
+	}
+	fmt.Fprintln(realStdout, time.Since(t))
+	return 0
+}
+func init() { register("dbg-minormate", dbgMinorMate) }
